@@ -227,19 +227,31 @@ def rule_advance(ctx, cd):
                 ok3 = got == amount
                 ctx.ob(R, t.rel, f"{lang}: {mname} [{label}]: advance by {amount}", ok3, "" if ok3 else f"advances by {got}")
     ctx.floor(R, n, 20)
-    # composite
+    # composite (template-local variables are identified by their role in the emitted text, not by their names)
     for lang in ("c", "cpp"):
         t = cd.tmpl(lang, "ser")
         for p in cd.paths(lang, "ser", "_serialize_composite"):
             text = cd.text(lang, p)
-            adv = [unplaceholder(p, e[2]) for e in events(text, lang, macro_placeholders(p)) if e[1] == "advance"]
+            mph = macro_placeholders(p)
+            adv_raw = [e[2] for e in events(text, lang, mph) if e[1] == "advance"]
+            adv = [unplaceholder(p, a) for a in adv_raw]
             label = " & ".join(("" if pol else "not ") + c for c, pol in p.conds if "LITTLE" not in c)[-80:]
-            deli_var = ("(t is DelimitedType)", True) in p.conds and ("is_variable_size", True) in p.conds
             if lang == "c":
-                exp = (["{t.delimiter_header_type.bit_length}"] if deli_var else []) + ["{ref_size_bytes} * 8"]
+                m = re.search(r"_serialize_ ?\( ?&Pz\d+z, &buffer\[offset_bits / 8U\], &(Pz\d+z) ?\)", text)
             else:
-                exp = ["{ref_size_bytes} * 8"]
-            ok = adv == exp
+                m = re.search(r"\b(Pz\d+z) = Pz\d+z\.value\(\);", text)
+            sz = m.group(1) if m else None
+            deli = ("(t is DelimitedType)", True) in p.conds and ("(t is DelimitedType)", False) not in p.conds
+            hdr_adv = [a for a in adv[:-1]]
+            hdr_macro = [n for n, callee in mph.items() if callee == "_serialize_integer" and "delimiter_header_type" in (p.xs_of(n) or "") and n in text]
+            ok = sz is not None and bool(adv_raw) and re.fullmatch(rf"{sz} \* 8U?", adv_raw[-1].strip()) is not None
+            if lang == "c":
+                n_hdr = len([a for a in hdr_adv if a == "{t.delimiter_header_type.bit_length}"]) + len(hdr_macro)
+                ok = ok and len(adv) - 1 == len([a for a in hdr_adv if a == "{t.delimiter_header_type.bit_length}"]) and n_hdr == (1 if deli else 0)
+                exp = "[header width once iff delimited] + [<nested size> * 8]"
+            else:
+                ok = ok and len(adv) == 1
+                exp = "[<nested size> * 8]"
             ctx.ob(R, t.rel, f"{lang}: _serialize_composite [{label}]: advances {exp}", ok, "" if ok else f"advances {adv}")
 
 
